@@ -600,6 +600,9 @@ where
                 cases: share,
                 failure_persistence: None,
                 max_shrink_iters: self.max_shrink_iters,
+                // shrinking is bounded in time as well: a slow failing case must not turn a
+                // detection into a run that never reports
+                max_shrink_time: 240_000,
                 rng_seed: RngSeed::Fixed(wseed),
                 max_global_rejects: 1_000_000,
                 ..Config::default()
